@@ -352,44 +352,66 @@ def dora_reader_summary(r, D):
     return {"by": by, "interp": I, "fns": fns, "enums": enums, "cls": cls}
 
 
+def _varint(v):
+    out = []
+    while True:
+        b = v & 0x7F
+        v >>= 7
+        if v:
+            b |= 0x80
+        out.append(b)
+        if not v:
+            return out
+
+
 def _example(sig, opc):
-    """concrete bytes a writer with operand signature `sig` produces for small operand values"""
+    """concrete bytes a writer with operand signature `sig` produces (varint operands >= 128 so that width matters)"""
     out = [opc]
-    n = 1
+    n = 200
     for s in sig:
         if s.startswith("N"):
             out.append(2)
-        elif "*" in s:
-            w = 4 if s[0] == "F" else 1
-            for _ in range(2):
-                out += [n] + [0] * (w - 1)
-                n += 1
-        elif s == "F":
-            out += [n, 0, 0, 0]
-            n += 1
-        else:
-            out.append(n)
+            continue
+        reps = 2 if "*" in s else 1
+        for _ in range(reps):
+            if s[0] == "F":
+                out += [n & 0xFF, 0, 0, 0]
+            elif s[0] == "V":
+                out += _varint(n)
+            else:
+                out.append(n & 0xFF)
             n += 1
     return out
 
 
 def _consumed(sig, data):
-    """how many of `data` (after the opcode byte) a reader with operand signature `sig` consumes; None if it runs out"""
+    """how many bytes of `data` a reader with operand signature `sig` consumes (opcode byte included)"""
     pos = 1
     counts = {}
+
+    def one(cls, pos):
+        if cls == "F":
+            return pos + 4, 0
+        if cls == "V":
+            v, sh = 0, 0
+            while pos < len(data):
+                b = data[pos]
+                pos += 1
+                v |= (b & 0x7F) << sh
+                sh += 7
+                if not b & 0x80:
+                    return pos, v
+            return pos + 1, v
+        return pos + 1, (data[pos] if pos < len(data) else 0)
     for s in sig:
-        if pos > len(data):
-            return None
         if s.startswith("N"):
-            counts[s[1:]] = data[pos] if pos < len(data) else 0
-            pos += 1
+            pos, v = one("V", pos)
+            counts[s[1:]] = v
         elif "*" in s:
-            w = 4 if s[0] == "F" else 1
-            pos += w * counts.get(s[s.index("*") + 1:], 1)
-        elif s == "F":
-            pos += 4
+            for _ in range(min(counts.get(s[s.index("*") + 1:], 1), 64)):
+                pos, _v = one(s[0], pos)
         else:
-            pos += 1
+            pos, _v = one(s[0], pos)
     return pos
 
 
@@ -400,7 +422,7 @@ def _hex(bs):
 def _desync(wsig, rsig, opc):
     ex = _example(wsig, opc)
     n = _consumed(rsig, ex)
-    if n is None or n > len(ex):
+    if n > len(ex):
         return "e.g. the writer emits [%s] (%d bytes) and this reader runs past the end into the next instruction" % (
             _hex(ex), len(ex))
     if n < len(ex):
@@ -543,6 +565,9 @@ def run_r1(r, F, c, D, tabs):
     dora = {}
     dconsts = tabs.get("dora_consts", {})
     opsec = {n for (n, _v) in tabs.get("dora_sections", {}).get("BytecodeOpcode", [])}
+    by_num = {}
+    for name, val in opc["enc"].items():
+        by_num.setdefault(val, name)
     for key, e in Dr["by"].items():
         for ptxt in key:
             if ptxt in ("_", "<no dispatch>"):
@@ -555,7 +580,7 @@ def run_r1(r, F, c, D, tabs):
                 continue
             if cname not in opsec:
                 r.observe("dora reader arm %s uses a constant outside the BytecodeOpcode section" % ptxt)
-            var = opc["dec"].get(val)
+            var = by_num.get(val)       # the byte the writer emits for a variant is From<BytecodeOpcode> (the encoder)
             if var is None:
                 r.observe("dora reader arm %s = %d is not a number of any BytecodeOpcode variant" % (ptxt, val))
                 continue
